@@ -1,7 +1,7 @@
 """C06 — merge/union is equivalent to having processed both streams (lattice census, guards, transfer loops)."""
 from ..paths import PathEnumerator
 from ..guards import fv
-from ..terms import TermBuilder, fmt, mk, const, subterms, elem_of, erase_param_names, swap_self_other
+from ..terms import TermBuilder, fmt, mk, const, subterms, elem_of, erase_param_names, swap_self_other, linear_eq
 from .common import (SELF, self_field, methods_of, has_self_receiver, all_writes, rng_fields, config_fields, symmetric_guards,
                      fields_mentioned, INTERIOR_MUT, loop_exits_only_on_exhaustion)
 
@@ -202,6 +202,22 @@ def union_transfer_rules(ctx):
             from ..guards import atomic_facts
             facts = {repr(c): tr for c, tr in atomic_facts(cu, prog, bi, tb)}
             nonzero = fv(facts, mk("Ne", f_t, const(0))) is True or fv(facts, mk("Eq", f_t, const(0))) is False
+            filter_some = None
+            if not nonzero:
+                # the test may be the predicate of a `.filter(|&(_, f)| f != 0)` on the slot stream instead of a branch in the body
+                from ..terms import apply_closure, elem_of as _eo
+                hs_ = [hh for hh in cu.loop_heads() if bi in cu.natural_loop(hh)]
+                for bj, t_ in cu.calls():
+                    if hs_ and bj in cu.natural_loop(hs_[0]) and t_.callee_name() == "next" and t_.args:
+                        it = tb.operand(t_.args[0], bj, len(cu.blocks[bj].stmts))
+                        init = tb.loop_init(it[1], it[2]) if it[0] == "loopvar" else it
+                        if init[0] == "filter" and init[2][0] == "closure":
+                            pr = apply_closure(init[2], (_eo(init[1]),))
+                            if pr in (mk("Ne", f_t, const(0)), mk("Not", mk("Eq", f_t, const(0)))) or fv({repr(pr): True}, mk("Ne", f_t, const(0))) is True:
+                                nonzero = True
+                                nb_ = cu.blocks[t_.j.get("target")] if t_.j.get("target") is not None else None
+                                if nb_ is not None and nb_.term.k == "switch":
+                                    filter_some = nb_.term.none_some_targets()[1]
             i1 = a[2]
             i2_ok = a[3] == mk("BitXor", i1, ("call", CF + "::hash", (otherp, f_t))) or a[3] == mk("BitXor", i1, ("call", CF + "::hash", (("param", 1, "self"), f_t)))
             okc = a[1] == f_t and nonzero and i2_ok
@@ -251,6 +267,8 @@ def union_transfer_rules(ctx):
                         nz_succ = (arms_.get(0) if zero_means else t_.j["otherwise"]) if 0 in arms_ else None
                         if nz_succ is None and set(arms_) == {1}:
                             nz_succ = t_.j["otherwise"] if zero_means else arms_[1]
+            if nz_succ is None and filter_some is not None:
+                nz_succ = filter_some        # every item the filtered stream yields is an occupied slot
             if nz_succ is None:
                 okc, why = False, "cannot find the `f != 0` test of the transfer loop"
             elif nz_succ != bi and reach_without(cu, nz_succ, h0, bi):
@@ -284,8 +302,71 @@ def union_transfer_rules(ctx):
             if not (rem[0] == "call" and rem[1].endswith("::get") and rem[2][0] == ("field", otherp, "remainders")):
                 probs.append("remainder argument %s is not read from other.remainders" % fmt(rem))
         fifo_discipline(ctx, bodies)
-        ctx.check(len(calls) == 2 and not probs, "R06-quotient-transfer", qu.key, qu, "both re-insertion sites take the remainder from other.remainders at the slot being visited",
-                  "; ".join(probs) or "%d insert_internal call sites (expected 2)" % len(calls))
+        # coverage: the cluster start AND every following slot of the cluster are re-inserted — two sites (start before the walk, cursor
+        # inside it) or one site at the top of a walk whose cursor starts AT the cluster start
+        from .C13 import succ_of
+        selfp_ = ("param", 1, "self")
+
+        def ring_succ(t_):
+            for base_ in (selfp_, otherp):
+                r_ = succ_of(t_, base_)
+                if r_ is not None:
+                    return r_
+            return None
+        slots = []
+        for body_fn, tb, bi, t in calls:
+            a = [tb.operand(x, bi, len(body_fn.blocks[bi].stmts)) for x in t.args]
+            if a[2][0] == "call" and len(a[2][2]) == 2:
+                x = a[2][2][1]
+                slots.append((tb, x[2] if x[0] == "cast" else x))
+        covered = False
+        from .C13 import is_ring_len
+        from ..terms import apply_closure
+
+        def ring_len_any(L_):
+            return is_ring_len(L_, selfp_) or is_ring_len(L_, otherp)
+        for tb, x in slots:
+            # the walk's cursor c (replaced by its ring successor in every iteration), read before (x = c) or after (x = succ(c)) the step
+            cur_ = x if x[0] == "loopvar" else ring_succ(x)
+            if cur_ is not None and cur_[0] == "loopvar" and isinstance(cur_[1], int) and ring_succ(tb.loop_update(cur_[1], cur_[2])) == cur_:
+                init = tb.loop_init(cur_[1], cur_[2])
+                if x == cur_:
+                    first_prev = ring_succ(init)       # first slot read is init; it is the start unless init = succ(start)
+                else:
+                    first_prev = init                  # first slot read is succ(init)
+                if x == cur_ and first_prev is None:
+                    covered = True                     # the walk starts at the cluster start itself
+                elif first_prev is not None and any(y == first_prev for _, y in slots):
+                    covered = True                     # the start is re-inserted separately, the walk covers the rest
+            # the walk as a mapped range of ring offsets: (1..=L-1).map(|o| (start + o) mod L).take_while(..)
+            if x[0] == "elem" and (x[1][0] == "map" or (x[1][0] == "call" and x[1][1].endswith("::take_while") and len(x[1][2]) == 2)):
+                S_ = x[1][2][0] if x[1][0] == "call" else x[1]
+                if S_[0] == "map" and S_[2][0] == "closure":
+                    R_ = S_[1]
+                    lo = hi_excl = None
+                    if R_[0] == "call" and R_[1].endswith("RangeInclusive::new") and len(R_[2]) == 2:
+                        lo, hi_excl = R_[2][0], mk("Add", R_[2][1], const(1))
+                    elif R_[0] == "adt" and R_[1] == "std::ops::Range":
+                        dd = dict(R_[3])
+                        lo, hi_excl = dd.get("start"), dd.get("end")
+                    o_ = ("sym", "offset")
+                    it_ = apply_closure(S_[2], (o_,))
+                    L_ = None
+                    if it_[0] == "op" and it_[1] == "BitAnd" and len(it_[2]) == 2:
+                        for u_, v_ in (it_[2], it_[2][::-1]):
+                            if v_[0] == "op" and v_[1] == "Sub" and v_[2][1] == const(1) and ring_len_any(v_[2][0]):
+                                L_, sum_ = v_[2][0], u_
+                    elif it_[0] == "op" and it_[1] == "Rem" and ring_len_any(it_[2][1]):
+                        L_, sum_ = it_[2][1], it_[2][0]
+                    if L_ is not None and lo == const(1) and hi_excl is not None and linear_eq(hi_excl, L_) \
+                            and sum_[0] == "op" and sum_[1] == "Add" and len(sum_[2]) == 2 and o_ in sum_[2]:
+                        st_ = [z for z in sum_[2] if z != o_][0]
+                        if any(y == st_ for _, y in slots):
+                            covered = True
+        if calls and not covered and not probs:
+            probs.append("the re-insertion sites do not cover the cluster start and every following slot of the cluster (slots read: %s)" % ", ".join(fmt(y)[:60] for _, y in slots))
+        ctx.check(1 <= len(calls) <= 2 and not probs, "R06-quotient-transfer", qu.key, qu, "the re-insertion site(s) take the remainder from other.remainders at the slot being visited: the cluster start and every slot of the walk",
+                  "; ".join(probs) or "%d insert_internal call sites (expected 1 or 2)" % len(calls))
 
 
 def fifo_discipline(ctx, bodies):
